@@ -199,6 +199,33 @@ def forms_agree(m, rec, case):
         rec.violation('report-file-differs-from-report', case, {'file': ''.join(wo.parts)[:200], 'want': want[:200],
                                                                'kind': 'write-only object'})
         return None
+    # a collecting object that is empty - hence false in a boolean context - until the first line is written (a list with a
+    # write method, a buffer with __len__)
+    class Lines(list):
+        def write(self, text):
+            self.append(text)
+
+    class Sized(object):
+        def __init__(self):
+            self.parts = []
+
+        def __len__(self):
+            return len(self.parts)
+
+        def write(self, text):
+            self.parts.append(text)
+    for sink in (Lines(), Sized()):
+        try:
+            m.validate(report_file=sink, return_errors=True)
+        except Exception as e:
+            rec.violation('report-file-object-with-write-only-raised:%s' % type(e).__name__, case, {'exc': repr(e)[:200]})
+            return None
+        got = ''.join(sink if isinstance(sink, list) else sink.parts)
+        if got != want:
+            rec.violation('report-file-differs-from-report', case, {'file': got[:200], 'want': want[:200],
+                                                                   'kind': 'empty collecting object (%s)' % type(sink).__name__})
+            return None
+    rec.count('report_objects_empty_at_first')
     global _report_paths
     _report_paths += 1
     if _report_paths % 50 == 1:
